@@ -1,9 +1,9 @@
 Require Extraction.
 Require Import ExtrOcamlBasic ExtrOcamlString.
 From Coq Require Import ZArith NArith List String.
-From RC Require Import lib.Pep440 lib.Name model.Merge model.Graph model.Possible model.Solver model.Explain model.Check.
+From RC Require Import lib.Pep440 lib.Name model.Merge model.Graph model.Possible model.Solver model.Explain model.Check proofs.ReproP.
 Extraction Language OCaml.
 Extraction "../build/ocaml/Solver/model.ml" N.succ Z.succ Pos.succ Nat.add
   vcmp is_prerelease clause_match spec_contains norm safe_name merge reduce accepts
   empty_graph add_dist remove_dists node_extras build_constraints visit_nodes gstep grun alookup slookup
-  is_possible get_dist get_dist_stack compile_roots perform_compile perform_compile_stack perform_compile_stack_ob perform_compile_stack_x mark_source flatten_stack build_explanation emitted find_paths_to_root pins_ok_b coherent_b closed_b explain_honest_b.
+  is_possible get_dist get_dist_stack compile_roots perform_compile perform_compile_stack perform_compile_stack_ob perform_compile_stack_x mark_source flatten_stack build_explanation emitted find_paths_to_root pins_ok_b coherent_b closed_b explain_honest_b consistentb.
